@@ -16,6 +16,7 @@ papers and libraries:
     https://github.com/prettier/prettier
 """
 
+import sys
 from copy import copy
 
 from .doctypes import (
@@ -336,8 +337,22 @@ def best_layout(
             broken_whitespace_triple = (indent, BREAK_MODE, whitespace)
 
             if len(docs) == 2:
-                if does_fit:
+                # Like every other whitespace of the fill, the trailing
+                # one is laid out flat only if it holds no forced break
+                # (the predicate gives up at an always_break at any width).
+                whitespace_can_be_flat = fast_fitting_predicate(
+                    page_width=width,
+                    ribbon_frac=ribbon_frac,
+                    min_nesting_level=min_nesting_level,
+                    max_width=sys.maxsize,
+                    triplestack=[flat_whitespace_triple]
+                )
+
+                if does_fit and whitespace_can_be_flat:
                     triplestack.append(flat_whitespace_triple)
+                    triplestack.append(flat_content_triple)
+                elif does_fit:
+                    triplestack.append(broken_whitespace_triple)
                     triplestack.append(flat_content_triple)
                 else:
                     triplestack.append(broken_whitespace_triple)
